@@ -235,12 +235,13 @@ StringFilter(name, s, args) ==
                   ELSE FUnspec
          ELSE FUnspec
     [] name = "truncate" ->
-         \* decided for single-line valid text, an ASCII ellipsis free of
+         \* decided for single-line valid text, an ellipsis free of
          \* regexp-template characters, and a length that leaves room for it
          IF n \in {1, 2} /\ args[1].k = "int" /\ (n = 1 \/ args[2].k = "str") /\ ValidUtf8(s)
             /\ ~(10 \in {s[i] : i \in 1..Len(s)})
          THEN LET el == IF n = 2 THEN args[2].v ELSE <<46, 46, 46>>
-              IN  IF IsAscii(el) /\ ~(36 \in {el[i] : i \in 1..Len(el)}) /\ args[1].v >= Len(el)
+              \* (the ellipsis counts in characters too)
+              IN  IF ValidUtf8(el) /\ ~(36 \in {el[i] : i \in 1..Len(el)}) /\ args[1].v >= CharCount(el)
                   THEN S(TruncateChars(s, args[1].v, el)) ELSE FUnspec
          ELSE FUnspec
     [] name = "truncatewords" ->
